@@ -103,7 +103,19 @@ func infoRun(src *iofault.Source) ([]string, error, *core.PanicError, []drive.Ou
 	return keys, term, p, nil
 }
 
+// lexSeekRun gives the lexer a seekable source and no attachment callback, so that attachments are
+// skipped with Seek (a different code path from the streaming skip).
+func lexSeekRun(src *iofault.Source) ([]string, error, *core.PanicError, []drive.Out) {
+	lr := drive.Lex(src, drive.LexOpts{NoAttachCB: true})
+	keys := make([]string, 0, len(lr.Outs))
+	for _, o := range lr.Outs {
+		keys = append(keys, string([]byte{o.Op})+o.Canon)
+	}
+	return keys, lr.Err, lr.Panic, lr.Outs
+}
+
 var c15Readers = []c15Reader{
+	{"lexer(seekable source, attachments skipped)", true, lexSeekRun},
 	{"lexer", false, lexRun(false)},
 	{"lexer(validate)", false, lexRun(true)},
 	{"scan-iterator", false, iterRun(false, mcap.UsingIndex(false))},
@@ -267,11 +279,11 @@ func errorClass(err error) string {
 
 func RunC15(ctx *core.Ctx, rep *core.Report) {
 	rep.Level = "fault_enumeration"
-	rep.Rule = "small files (about 1-6 KiB; none/zstd/lz4 chunked with full index, and unchunked) written by the real Writer; seven reader configurations (lexer with validation off/on and scan iterator on a stream-only source; index-based iterator in three orders and Info+attachment/metadata random access on a seekable source). " +
+	rep.Rule = "small files (about 1-6 KiB; none/zstd/lz4 chunked with full index, and unchunked) written by the real Writer; eight reader configurations (lexer with validation off/on and scan iterator on a stream-only source; lexer skipping attachments by Seek on a seekable source; index-based iterator in three orders and Info+attachment/metadata random access on a seekable source). " +
 		"Per file and reader: five delivery schedules (1-byte, halving, seeded random sizes, data together with io.EOF, both) must give the identical result; then a non-EOF read error is injected at EVERY byte position, sticky and fire-once, and every Seek call is failed in turn. " +
 		"Oracle: fired fault => records returned are a prefix of the fault-free sequence and the outcome is an error that is not (and does not wrap) io.EOF, no panic; unreached fault => identical result. distinct_nontrivial counts distinct files enumerated."
 	rep.Assumptions = []string{"'clean end-of-file' is errors.Is(err, io.EOF), the library's documented end signal"}
-	n := ctx.Pick(16, 400)
+	n := ctx.Pick(12, 400)
 	nr := len(c15Readers)
 	core.Parallel(ctx, rep, n*nr*c15Stripes, func(k int) {
 		checkC15Job(ctx, k/(nr*c15Stripes), (k/c15Stripes)%nr, k%c15Stripes, rep)
